@@ -83,6 +83,9 @@ func TestVerifC06(t *testing.T) {
 	})
 
 	lap("faults")
+	// calls that go straight to the database (NoCache, Transact) and WithSession share the cache
+	kit.Run(t, "C06", "passthrough", kit.N(96, 960), func(c *kit.Case) { passthrough(w, c) })
+	lap("passthrough")
 	runConcurrent(t, w)
 	lap("burst")
 	kit.End()
